@@ -1102,6 +1102,37 @@ static void run_analyzers(int codec, const uint64_t *xs, const uint32_t *x32, si
         acc_emit(codec, "MaxBitWidth", f, w, 0, 0);
         break;
     }
+    case C_ADAPTIVE: {
+        /* the analysis behind the automatic selection: conformance facts (NOTES), compared by
+         * StoreTrace.tla with the same statistics computed from the values */
+        if (n > 200) {
+            break;
+        }
+        varintAdaptiveDataStats st;
+        memset(&st, 0x5A, sizeof(st));
+        f = GUARDED(varintAdaptiveAnalyze(xs, n, &st));
+        int sorted = 0;
+        size_t uniq = 0;
+        int f2 = GUARDED(sorted = varintAdaptiveCheckSorted(xs, n));
+        f2 = f2 ? f2 : GUARDED(uniq = varintAdaptiveCountUnique(xs, n));
+        ev_begin("Stat");
+        ev_int("sc", (long long)scen_id);
+        ev_str("codec", CODEC[codec]);
+        ev_int("fault", f ? f : f2);
+        ev_int("count", f ? -1 : (long long)st.count);
+        ev_limbs("min", st.minValue);
+        ev_limbs("max", st.maxValue);
+        ev_limbs("range", st.range);
+        ev_limbs("maxdelta", st.maxDelta);
+        ev_int("unique", f ? -1 : (long long)st.uniqueCount);
+        ev_int("sorted", f ? -1 : st.isSorted);
+        ev_int("rsorted", f ? -1 : st.isReverseSorted);
+        ev_int("fits", f ? -1 : st.fitsInBitmapRange);
+        ev_int("chk", sorted);
+        ev_int("cu", (long long)uniq);
+        ev_end();
+        break;
+    }
     default:
         break;
     }
